@@ -742,3 +742,214 @@ Proof.
   rewrite (nth_indep _ 0 (f [])) by (rewrite map_length, cart_length; exact Hlt).
   rewrite map_nth, Hnth. reflexivity.
 Qed.
+
+(* ------------------------------------------------------------------ *)
+(* ties go to the right neighbour; closest-node witnesses in d dimensions  *)
+Lemma tie_right (c : list R) i : Asc c -> (S i < length c)%nat ->
+  nearest_nat c ((nth i c 0 + nth (S i) c 0) / 2) = S i.
+Proof.
+  intros Ha Hi. set (x := (nth i c 0 + nth (S i) c 0) / 2).
+  apply closest_unique with c x; [apply nearest_closest; [exact Ha|lia]|].
+  pose proof (Ha i (S i) ltac:(lia) Hi) as Hlt.
+  split; [exact Hi|]. intros m Hm.
+  assert (Hx : Rabs (x - nth (S i) c 0) = (nth (S i) c 0 - nth i c 0) / 2).
+  { rewrite Rabs_left1 by (unfold x; lra). unfold x. lra. }
+  rewrite Hx. destruct (le_lt_dec m i) as [Hmi|Hmi].
+  - pose proof (Asc_le c m i Ha Hmi ltac:(lia)). split; [|lia].
+    rewrite Rabs_pos_eq by (unfold x; lra). unfold x. lra.
+  - destruct (Nat.eq_dec m (S i)) as [->|Hne].
+    + split; [rewrite Hx; lra | lia].
+    + pose proof (Ha (S i) m ltac:(lia) Hm).
+      assert (Hg : (nth (S i) c 0 - nth i c 0) / 2 < Rabs (x - nth m c 0)).
+      { rewrite Rabs_left1 by (unfold x; lra). unfold x. lra. }
+      split; [lra | intros _; exact Hg].
+Qed.
+
+Lemma nearest_js_closest (axes : list axis) : Forall nearest_ok axes ->
+  Forall2 (fun t j => closest (a_c t) (a_x t) j) axes (nearest_js axes).
+Proof.
+  induction 1 as [|t r (Hs & Ha & Hn) Hr IH]; [constructor|].
+  cbn [nearest_js map]. constructor; [apply nearest_closest; assumption | exact IH].
+Qed.
+
+(* ------------------------------------------------------------------ *)
+(* sampling followed by interpolation                                   *)
+Lemma nodes_at_node_at (axes : list axis) js : nodes_at axes js = node_at (map a_c axes) js.
+Proof.
+  unfold nodes_at, node_at. revert js; induction axes as [|t r IH]; intros [|j js]; cbn; try reflexivity.
+  now rewrite IH.
+Qed.
+
+Lemma in_range_Forall2 (axes : list axis) js :
+  in_range axes js -> Forall2 (fun c j => (j < length c)%nat) (map a_c axes) js.
+Proof. induction 1; cbn; constructor; assumption. Qed.
+
+Lemma shape_of_lengths (axes : list axis) : shape_of axes = map (@length R) (map a_c axes).
+Proof. unfold shape_of. now rewrite map_map. Qed.
+
+Definition sampled (axes : list axis) (f : list R -> R) : list Z -> R :=
+  vget (shape_of axes) (collocate f (map a_c axes)).
+
+Lemma sampled_wrapped (axes : list axis) f :
+  sampled axes f = wrapped (shape_of axes) (fun js => nth (nat_index (shape_of axes) js) (collocate f (map a_c axes)) 0).
+Proof. reflexivity. Qed.
+
+Lemma sample_interp_node (naxes : list naxis) (f : list R -> R) :
+  Forall node_ok naxes ->
+  let axes := map at_node naxes in
+  peraxis_point (map a_s axes) (map a_c axes) (sampled axes f) (map a_x axes) = f (map a_x axes).
+Proof.
+  intros Hok axes. rewrite sampled_wrapped, peraxis_tensor. unfold axes.
+  rewrite tensor_eval_node by exact Hok. fold axes.
+  rewrite shape_of_lengths, collocate_nth.
+  - f_equal. unfold axes, node_at. clear. induction naxes as [|[[s c] j] r IH]; [reflexivity|].
+    cbn [map map2]. unfold a_c, a_x, at_node at 1 2 3, n_j at 1. cbn [fst snd]. f_equal. exact IH.
+  - unfold axes. clear f axes. induction Hok as [|[[s c] j] r [_ Hj] Hr IH]; cbn [map]; constructor; [exact Hj | exact IH].
+Qed.
+
+Lemma sample_affine_linear (axes : list axis) a0 al :
+  Forall hull_ok axes -> Forall (fun t => a_s t = SLinear) axes ->
+  peraxis_point (map a_s axes) (map a_c axes) (sampled axes (fun p => a0 + lincomb al p)) (map a_x axes)
+  = a0 + lincomb al (map a_x axes).
+Proof.
+  intros Hok Hlin. rewrite sampled_wrapped, peraxis_tensor.
+  apply tensor_eval_affine; [exact Hok | exact Hlin |].
+  intros js Hjs. rewrite shape_of_lengths, collocate_nth by (apply in_range_Forall2; exact Hjs).
+  now rewrite nodes_at_node_at.
+Qed.
+
+(* ------------------------------------------------------------------ *)
+(* one-dimensional corollaries in terms of the model's entry points      *)
+Definition interp1 (s : scheme) (c v : list R) (x : R) : R :=
+  peraxis_point [s] [c] (vget [length c] v) [x].
+
+Lemma interp1_blend s (c v : list R) x :
+  interp1 s c v x = blend (length c) (axis_data s c x) (fun j => nth j v 0).
+Proof.
+  unfold interp1.
+  change (peraxis_point [s] [c] (vget [length c] v) [x]) with
+    (peraxis_point (map a_s [(s, c, x)]) (map a_c [(s, c, x)])
+       (wrapped (shape_of [(s, c, x)]) (fun js => nth (nat_index [length c] js) v 0)) (map a_x [(s, c, x)])).
+  rewrite peraxis_tensor. cbn [tensor_eval]. unfold axd_of, a_s, a_c, a_x. cbn [fst snd].
+  apply blend_ext. intros j. cbn [nat_index prodn fold_right]. f_equal. lia.
+Qed.
+
+Lemma interp1_linear_in (c v : list R) x i : Asc c -> (S i < length c)%nat ->
+  nth i c 0 <= x <= nth (S i) c 0 ->
+  interp1 SLinear c v x =
+  (1 - (x - nth i c 0) / (nth (S i) c 0 - nth i c 0)) * nth i v 0
+  + (x - nth i c 0) / (nth (S i) c 0 - nth i c 0) * nth (S i) v 0.
+Proof. intros Ha Hi Hx. rewrite interp1_blend. apply (blend_linear_in c x (fun j => nth j v 0) i Ha Hi Hx). Qed.
+
+Lemma interp1_linear_low (c v : list R) x : Asc c -> (2 <= length c)%nat -> x < nth 0 c 0 ->
+  interp1 SLinear c v x = (1 - (nth 0 c 0 - x) / (nth 1 c 0 - nth 0 c 0)) * nth 0 v 0.
+Proof. intros Ha Hn Hx. rewrite interp1_blend. apply (blend_linear_low c x (fun j => nth j v 0) Ha Hn Hx). Qed.
+
+Lemma interp1_linear_high (c v : list R) x : Asc c -> (2 <= length c)%nat -> nth (length c - 1) c 0 < x ->
+  interp1 SLinear c v x =
+  (1 - (x - nth (length c - 1) c 0) / (nth (length c - 1) c 0 - nth (length c - 2) c 0)) * nth (length c - 1) v 0.
+Proof. intros Ha Hn Hx. rewrite interp1_blend. apply (blend_linear_high c x (fun j => nth j v 0) Ha Hn Hx). Qed.
+
+Lemma interp1_node s (c v : list R) j : good_axis s c -> (j < length c)%nat ->
+  interp1 s c v (nth j c 0) = nth j v 0.
+Proof. intros Hg Hj. rewrite interp1_blend. apply (blend_node s c j (fun j => nth j v 0) Hg Hj). Qed.
+
+Lemma nearest_points_1d (c v : list R) x : (1 <= length c)%nat ->
+  nearest_points [c] (vget [length c] v) [[x]] = [nth (nearest_nat c x) v 0].
+Proof.
+  intros Hn. unfold nearest_points, nearest_point, vget, wrapped. cbn [map map2].
+  rewrite nearest_index_nat by exact Hn. rewrite wrap_nat. cbn [nat_index prodn fold_right]. do 2 f_equal. lia.
+Qed.
+
+Lemma interp1_nearest (c v : list R) x : Asc c -> (1 <= length c)%nat ->
+  exists j, closest c x j /\ interp1 SNearest c v x = nth j v 0 /\
+            nearest_points [c] (vget [length c] v) [[x]] = [nth j v 0].
+Proof.
+  intros Ha Hn. exists (nearest_nat c x). split; [apply nearest_closest; assumption|]. split.
+  - rewrite interp1_blend. apply (blend_nearest c x (fun j => nth j v 0) Ha Hn).
+  - apply nearest_points_1d. exact Hn.
+Qed.
+
+Lemma interp1_tie (c v : list R) i : Asc c -> (S i < length c)%nat ->
+  interp1 SNearest c v ((nth i c 0 + nth (S i) c 0) / 2) = nth (S i) v 0.
+Proof.
+  intros Ha Hi. rewrite interp1_blend, (blend_nearest c _ (fun j => nth j v 0) Ha ltac:(lia)).
+  now rewrite tie_right.
+Qed.
+
+Lemma interp1_affine (c v : list R) a b x : Asc c -> (2 <= length c)%nat ->
+  (forall j, (j < length c)%nat -> nth j v 0 = a + b * nth j c 0) ->
+  nth 0 c 0 <= x <= nth (length c - 1) c 0 ->
+  interp1 SLinear c v x = a + b * x.
+Proof.
+  intros Ha Hn Hv Hx. rewrite interp1_blend.
+  rewrite (blend_ext_range _ _ _ _ (fun j => a + b * nth j c 0) Ha ltac:(lia) Hv).
+  apply blend_affine; assumption.
+Qed.
+
+(* a concrete non-uniform grid satisfying the hypotheses (used by the Examples in Props.v) *)
+Lemma Asc_example : Asc [0; 1; 3].
+Proof.
+  intros i j Hij Hj. cbn [length] in Hj.
+  destruct j as [|[|[|j]]]; try lia; destruct i as [|[|i]]; try lia; cbn; lra.
+Qed.
+
+(* ------------------------------------------------------------------ *)
+(* the statements of Props.v in terms of the model's entry points          *)
+Lemma find_indices_full (c : list R) (x : R) : Asc c -> (2 <= length c)%nat ->
+  let i := cellnat c x in let y := norm_dist c x in
+  cell_index c x = Z.of_nat i /\
+  (S i < length c)%nat /\ nth i c 0 < nth (S i) c 0 /\
+  y = (x - nth i c 0) / (nth (S i) c 0 - nth i c 0) /\
+  ( (x < nth 0 c 0 /\ i = O /\ y < 0)
+    \/ (nth 0 c 0 <= x <= nth (length c - 1) c 0 /\ nth i c 0 <= x <= nth (S i) c 0 /\ 0 <= y <= 1
+        /\ (nth i c 0 = x -> i = O))
+    \/ (nth (length c - 1) c 0 < x /\ i = (length c - 2)%nat /\ 1 < y) ).
+Proof. intros Ha Hn. split; [exact (cell_index_nat c x Hn) | exact (regime c x Ha Hn)]. Qed.
+
+Lemma peraxis_node_d (naxes : list naxis) (G : list nat -> R) : Forall node_ok naxes ->
+  let axes := map at_node naxes in
+  peraxis_point (map a_s axes) (map a_c axes) (wrapped (shape_of axes) G) (map a_x axes) = G (map n_j naxes).
+Proof. intros Hok axes. unfold axes. rewrite peraxis_tensor. exact (tensor_eval_node naxes G Hok). Qed.
+
+Lemma nearest_d (axes : list axis) (G : list nat -> R) : Forall nearest_ok axes ->
+  exists js : list nat,
+    Forall2 (fun t j => closest (a_c t) (a_x t) j) axes js /\
+    nearest_point (map a_c axes) (wrapped (shape_of axes) G) (map a_x axes) = G js /\
+    peraxis_point (map a_s axes) (map a_c axes) (wrapped (shape_of axes) G) (map a_x axes) = G js.
+Proof.
+  intros Hok. exists (nearest_js axes). split; [exact (nearest_js_closest axes Hok)|]. split.
+  - exact (nearest_point_axes axes G Hok).
+  - rewrite peraxis_tensor. exact (tensor_eval_nearest axes G Hok).
+Qed.
+
+Lemma peraxis_mblend_d (ca : list (axis * nat)) (G : list nat -> R) : Forall cell_ok ca ->
+  let axes := map fst ca in
+  peraxis_point (map a_s axes) (map a_c axes) (wrapped (shape_of axes) G) (map a_x axes) = mblend ca G.
+Proof. intros Hok axes. unfold axes. rewrite peraxis_tensor. exact (tensor_eval_mblend ca G Hok). Qed.
+
+Lemma peraxis_affine_d (axes : list axis) (G : list nat -> R) a0 al :
+  Forall hull_ok axes -> Forall (fun t => a_s t = SLinear) axes ->
+  (forall js, in_range axes js -> G js = a0 + lincomb al (nodes_at axes js)) ->
+  peraxis_point (map a_s axes) (map a_c axes) (wrapped (shape_of axes) G) (map a_x axes)
+  = a0 + lincomb al (map a_x axes).
+Proof. intros Hok Hlin HG. rewrite peraxis_tensor. exact (tensor_eval_affine axes G a0 al Hok Hlin HG). Qed.
+
+Lemma peraxis_const_d (axes : list axis) (G : list nat -> R) k :
+  Forall hull_ok axes -> (forall js, in_range axes js -> G js = k) ->
+  peraxis_point (map a_s axes) (map a_c axes) (wrapped (shape_of axes) G) (map a_x axes) = k.
+Proof. intros Hok HG. rewrite peraxis_tensor. exact (tensor_eval_const axes G k Hok HG). Qed.
+
+Lemma peraxis_linear_d (axes : list axis) (G H : list nat -> R) a b :
+  peraxis_point (map a_s axes) (map a_c axes) (wrapped (shape_of axes) (fun js => a * G js + b * H js)) (map a_x axes)
+  = a * peraxis_point (map a_s axes) (map a_c axes) (wrapped (shape_of axes) G) (map a_x axes)
+  + b * peraxis_point (map a_s axes) (map a_c axes) (wrapped (shape_of axes) H) (map a_x axes).
+Proof. rewrite !peraxis_tensor. exact (tensor_eval_linear axes G H a b). Qed.
+
+Lemma hypotheses_example :
+  Asc [0; 1; 3] /\ good_axis SLinear [0; 1; 3] /\ good_axis SNearest [0; 1; 3] /\
+  hull_ok (SLinear, [0; 1; 3], 2).
+Proof.
+  pose proof Asc_example as Ha. unfold good_axis, hull_ok, a_c, a_x. cbn [fst snd length nth Nat.sub].
+  repeat split; try exact Ha; try (left; repeat constructor); try (repeat constructor); lra.
+Qed.
